@@ -191,16 +191,6 @@ pub fn c15b_as_hsla_rgba() {
 
 /// `Color::from_hwb` on the builtin's domain (whiteness and blackness in [0,100], any alpha, any finite hue with
 /// |hue| < 2^20): red, green, blue are integers in [0,255], alpha in [0,1].
-/// Documented contract of `f64::rem_euclid` for a finite dividend and the divisor 360: the least non-negative remainder,
-/// which "may equal the divisor due to rounding". (CBMC's own model of the float `%` is not exact: with the real
-/// `rem_euclid` and `fuzzy_round` this harness returned a counterexample that does not reproduce natively.)
-pub fn rem_euclid_360_contract(x: f64, rhs: f64) -> f64 {
-    assert!(rhs == 360.0 && x.is_finite(), "C15c: from_hwb calls rem_euclid outside the modelled contract");
-    let r: f64 = kani::any();
-    kani::assume(r >= 0.0 && r <= 360.0);
-    r
-}
-
 /// Contract of `fuzzy_round` decided on the real code by engine F (`c07_fuzzy_round`, |x| < 2^40): floor or ceil of x,
 /// floor when the fractional part is more than 1e-11 below one half (above, for negative x), ceil when it is at or
 /// within 4e-12 of one half or above (floor, for negative x).
@@ -248,24 +238,9 @@ hwb_wb!(c15c_from_hwb_wb_h30, 30.0);
 hwb_wb!(c15c_from_hwb_wb_h200, 200.0);
 hwb_wb!(c15c_from_hwb_wb_h304, 304.28);
 
-/// Hue path: any finite hue with |hue| < 2^20, whiteness/blackness from a fixed list of pairs.
-#[kani::proof]
-#[kani::unwind(11)]
-#[kani::stub(f64::rem_euclid, rem_euclid_360_contract)]
-#[kani::stub(grass_compiler::value::number::fuzzy_round, fuzzy_round_contract)]
-pub fn c15c_from_hwb_hue() {
-    let h: f64 = kani::any();
-    kani::assume(h.is_finite() && h.abs() < 1048576.0);
-    const WB: [(f64, f64); 10] = [(0.0, 0.0), (100.0, 100.0), (0.0, 100.0), (100.0, 0.0), (50.0, 50.0), (30.0, 70.0),
-        (70.0, 60.0), (1e-14, 100.0), (12.5, 25.0), (33.3, 66.7)];
-    let mut k = 0;
-    while k < 10 {
-        hwb_check(h, WB[k].0, WB[k].1, 1.0);
-        k += 1;
-    }
-    kani::cover!(h < 0.0, "negative_hue");
-    kani::cover!(true, "end");
-}
+// The hue path (any hue, fixed whiteness/blackness pairs) is decided by engine F (`c15_from_hwb`, exact `%`): a Kani harness for it
+// passed in 373 s but cannot see a change of the hue normalisation, because CBMC models the float `%` as the IEEE remainder.
+// `Color::from_hsla` with hue, saturation and lightness all symbolic: no answer in 20 min; not built.
 
 // ---- C15f: mix() at its end points, invert() twice ----
 
